@@ -454,6 +454,15 @@ def gen_pp_stress(rng, n):
     add('define-paste-number', b'#define C(a,b) a##b\nint x = C(1,2) + C(1.,e5) + C(0x,1) + C(1,e+);\n')
     add('define-paste-punct', b'#define C(a,b) a##b\nint x = 1 C(<,<) 2; int y = 1 C(+,+);\n')
     add('define-paste-vaopt', b'#define F(a,...) a ## __VA_OPT__(x)\nint F(y); int F(z,1);\n')
+    # `##` at every position of a replacement list of up to four elements over two parameters (leading, trailing, doubled, chains),
+    # invoked with every combination of empty and non-empty arguments (placemarkers: C11 6.10.3.3p2-3)
+    import itertools as _it
+    for n in (1, 2, 3, 4):
+        for body in _it.product(('a', 'b', '##'), repeat=n):
+            if '##' not in body:
+                continue
+            for args in (',', '1,', ',2'):
+                add('define-paste-positions', ('#define F(a,b) ' + ' '.join(body) + '\nint x = 0 F(' + args + ');\n').encode())
     add('define-vaopt-open', b'#define F(...) __VA_OPT__(\nF(1)\n')
     add('define-vaopt-nested', b'#define F(...) __VA_OPT__(__VA_OPT__(1))\nint x = F(1);\n')
     add('define-vaopt-obj', b'#define F __VA_OPT__(1)\nint x = F;\n')
